@@ -495,3 +495,142 @@ func checkHandedOutOnce(c *core.Ctx, r *core.Report) {
 	}
 	r.Floor("PAIR", "blocks handed out by getFilteredBlocks", n, 1)
 }
+
+// checkNewSharedVariables — C11 clause NEWSHARED.  A package-level variable that the pinned tree does not have (it is
+// absent from tables/baseline_symbols.json and is not the new name of a renamed one) and that is assigned outside the
+// package initialiser is new shared state.  For such a variable the contradiction rule needs no table: if some of its
+// accesses are made with a lock certainly held (in the accessing function or by every caller) and another access is
+// made without that lock, one of the two is wrong — a scratch buffer "protected by smrLock" that one of its three
+// users fills before taking the lock is corrupted by two concurrent rotations.  Variables of the sync and sync/atomic
+// types, and variables nobody assigns after initialisation, are not state of this kind.  A variable that no access
+// locks at all gives no contradiction and is not judged.
+func checkNewSharedVariables(c *core.Ctx, r *core.Report, a *locks.Analysis) {
+	if c.Baseline == nil {
+		return
+	}
+	callers := c.StaticCallers()
+	type access struct {
+		in    ssa.Instruction
+		write bool
+	}
+	accesses := map[*ssa.Global][]access{}
+	isNew := func(g *ssa.Global) bool {
+		if g.Pkg == nil || g.Pkg.Pkg == nil || !core.IsRepoPkg(g.Pkg.Pkg.Path()) {
+			return false
+		}
+		rel := strings.TrimPrefix(strings.TrimPrefix(g.Pkg.Pkg.Path(), core.ModPath), "/")
+		base, ok := c.Baseline[rel]
+		if !ok {
+			return false
+		}
+		if _, known := base[g.Name()]; known {
+			return false
+		}
+		if g.Object() != nil && c.BaseName(g.Object()) != g.Name() {
+			return false // a renamed variable
+		}
+		t := g.Type().(*types.Pointer).Elem()
+		if n, ok := t.(*types.Named); ok && n.Obj().Pkg() != nil {
+			switch n.Obj().Pkg().Path() {
+			case "sync", "sync/atomic":
+				return false
+			}
+		}
+		return true
+	}
+	rootGlobal := func(v ssa.Value) *ssa.Global {
+		for d := 0; d < 4; d++ {
+			switch x := v.(type) {
+			case *ssa.Global:
+				return x
+			case *ssa.FieldAddr:
+				v = x.X
+			case *ssa.IndexAddr:
+				v = x.X
+			default:
+				return nil
+			}
+		}
+		return nil
+	}
+	for _, fn := range c.RepoFunctions() {
+		if isInitFunc(fn) {
+			continue
+		}
+		for _, b := range fn.Blocks {
+			for _, in := range b.Instrs {
+				switch x := in.(type) {
+				case *ssa.Store:
+					if g := rootGlobal(x.Addr); g != nil && isNew(g) {
+						accesses[g] = append(accesses[g], access{in, true})
+					}
+				case *ssa.UnOp:
+					if x.Op == token.MUL {
+						if g := rootGlobal(x.X); g != nil && isNew(g) {
+							accesses[g] = append(accesses[g], access{in, false})
+						}
+					}
+				}
+			}
+		}
+	}
+	var gs []*ssa.Global
+	for g := range accesses {
+		gs = append(gs, g)
+	}
+	sort.Slice(gs, func(i, j int) bool { return gs[i].String() < gs[j].String() })
+	for _, g := range gs {
+		acc := accesses[g]
+		written := false
+		for _, x := range acc {
+			if x.write {
+				written = true
+			}
+		}
+		if !written {
+			continue
+		}
+		// the lock classes certainly held at some access
+		classes := map[locks.Class]bool{}
+		for _, x := range acc {
+			if ff := a.Facts[x.in.Parent()]; ff != nil {
+				for _, h := range ff.MayHolds(x.in) {
+					if ff.MustHold(x.in, h.Class, false) {
+						classes[h.Class] = true
+					}
+				}
+			}
+		}
+		if len(classes) == 0 {
+			continue
+		}
+		construct := fmt.Sprintf("%s:every-access-under-one-lock", strings.TrimPrefix(g.String(), core.ModPath+"/"))
+		consistent := false
+		var lacking ssa.Instruction
+		var lackName string
+		for cl := range classes {
+			all := true
+			for _, x := range acc {
+				ff := a.Facts[x.in.Parent()]
+				if ff != nil && ff.MustHold(x.in, cl, false) {
+					continue
+				}
+				if ok, _ := callersHold(c, a, callers, x.in.Parent(), cl, false, map[*ssa.Function]bool{}, 0); ok {
+					continue
+				}
+				all = false
+				if lacking == nil {
+					lacking, lackName = x.in, cl.Name
+				}
+			}
+			if all {
+				consistent = true
+			}
+		}
+		if consistent {
+			r.OK("HELD", construct, c.Pos(acc[0].in.Pos()), fmt.Sprintf("%d accesses, all with one lock held", len(acc)))
+		} else {
+			r.Violation("HELD", construct, c.Pos(lacking.Pos()), fmt.Sprintf("this package-level variable is new; some of its accesses are made with %s held and this one is not: two goroutines (two rotations, a rotation and a clean-up) use it at the same time, so one overwrites what the other is still reading or writing", lackName))
+		}
+	}
+}
